@@ -178,10 +178,14 @@ class LinkManager(HubListener):
            The link(s) to ingest
         """
         if isinstance(link, list):
-            for l in link:
-                self.add_link(l, update_external=False)
-            if update_external:
-                self.update_externally_derivable_components()
+            try:
+                for l in link:
+                    self.add_link(l, update_external=False)
+            finally:
+                # keep the derived components in sync with the links registered
+                # so far even if one of the items raised
+                if update_external:
+                    self.update_externally_derivable_components()
         else:
             if link not in self._external_links and isinstance(link, LinkCollection) or link.inverse not in self._external_links:
                 if isinstance(link, JoinLink):
@@ -193,10 +197,14 @@ class LinkManager(HubListener):
     @contract(link=ComponentLink)
     def remove_link(self, link, update_external=True):
         if isinstance(link, list):
-            for l in link:
-                self.remove_link(l, update_external=False)
-            if update_external:
-                self.update_externally_derivable_components()
+            try:
+                for l in link:
+                    self.remove_link(l, update_external=False)
+            finally:
+                # keep the derived components in sync with the links removed
+                # so far even if one of the items raised
+                if update_external:
+                    self.update_externally_derivable_components()
         else:
             logging.getLogger(__name__).debug('removing link %s', link)
             if isinstance(link, JoinLink):
